@@ -454,8 +454,11 @@ class Analyzer:
                         a.const / b.const
                 keep = (a.centred and not b.axes) or \
                     (b.centred and not a.axes and op == "Mult")
-                return AV(axes, deg, {}, {}, c, centred=keep,
-                          pending=a.pending or b.pending)
+                # v * v: element-wise squares (as np.square / v ** 2)
+                sq = op == "Mult" and bool(a.axes) and \
+                    self._array_core(l) is self._array_core(r)
+                return AV(axes, deg, {}, {}, c, centred=keep and not sq,
+                          pending=a.pending or b.pending, sq=sq)
             self.stats["linear"] += 1
             # exactly one weighted factor, the other a scalar
             if not a.invariant and not b.invariant:
@@ -485,6 +488,21 @@ class Analyzer:
             e = F(b.const).limit_denominator(1000)
             return AV(a.axes, tuple(d * e for d in a.deg), sq=(e == 2))
         raise Unknown(f"operator {op}")
+
+    def _array_core(self, t: T) -> T:
+        """t without scalar factors: (c * v) and v have the same core"""
+        for _ in range(4):
+            if t.op == "binop" and t.args[0] == "Mult":
+                va = self.memo.get(id(t.args[1]))
+                vb = self.memo.get(id(t.args[2]))
+                if va is not None and not va.axes and va.tup is None:
+                    t = t.args[2]
+                    continue
+                if vb is not None and not vb.axes and vb.tup is None:
+                    t = t.args[1]
+                    continue
+            break
+        return t
 
     def dot(self, a: AV, b: AV, l: T, r: T, t: T) -> AV:
         if not a.axes or not b.axes:
@@ -587,6 +605,8 @@ class Analyzer:
                         f"coordinate axis, not over the points: the "
                         f"coordinates of a point are mixed and the "
                         f"result does not have one entry per dimension")
+                elif v.axes[i] in (K, ANY) and v.invariant:
+                    pass        # sum over the singular directions (a trace)
                 else:
                     raise Unknown(f"reduction over axis "
                                   f"{'·'.join(v.axes[i])}")
@@ -620,6 +640,13 @@ class Analyzer:
             return AV(tuple([ANY] * n), zero=True)
         if fn in ("eye", "identity"):
             return AV((ANY, ANY))
+        if fn in ("ones", "ones_like"):
+            # an array of the constant 1 (e.g. the diagonal of a sign matrix)
+            shp = self.ev(args[0])
+            n = 1 if shp.tup is None else len(shp.tup)
+            if fn == "ones_like":
+                n = max(1, len(shp.axes))
+            return AV(tuple([ANY] * n))
         if fn == "outer":
             a, b = self.ev(args[0]), self.ev(args[1])
             if len(a.axes) != 1 or len(b.axes) != 1:
@@ -776,6 +803,11 @@ class Analyzer:
         v = self.ev(val)
         if isinstance(v.const, (int, float)) and not any(b.deg) and \
                 b.invariant:
+            if b.axes == (ANY,):
+                # a vector of ones with one entry changed: the diagonal of
+                # the sign matrix S, indexed by the singular directions — it
+                # scales *those*, not the coordinates of a point
+                return replace(b, axes=(K,), zero=False)
             return replace(b, zero=False)
         raise Unknown(f"element assignment {tm.show(t)[:70]}")
 
